@@ -16,13 +16,19 @@ def main():
     src = "/tmp/seed/%s/_seed/%s" % (prop, k)
     rnd = os.environ.get("SEED_ROUND", "")
     dst = os.path.join(VERIF, "seeded", "%s-%s%s" % (prop, rnd + "-" if rnd else "", k))
+    if os.environ.get("SEED_PHASE") == "check":
+        src = dst
     wt = "/tmp/seedverify-%s-%s" % (prop, k)
     meta = {"property": prop, "id": "%s-%s%s" % (prop, os.environ.get("SEED_ROUND", "") + "-" if os.environ.get("SEED_ROUND") else "", k), "ran": []}
     phase = os.environ.get("SEED_PHASE", "all")   # confirm (scratch worktree only, parallelisable) | check (on /repo, sequential) | all
     patch = os.path.join(src, "patch.diff")
-    demos = [f for f in os.listdir(src) if f.endswith(".go") or f == "demo"]
+    demos = [f for f in os.listdir(src) if f.endswith(".go") or f == "demo"] if phase != "check" else []
     if phase == "check":
+        # re-evaluation from the stored directory (the agent's scratch output may be gone)
         meta = json.load(open(os.path.join(dst, "meta.json")))
+        patch = os.path.join(dst, "patch.diff")
+        demos = []
+        src = dst
     else:
       subprocess.run(["git", "-C", "/repo", "worktree", "remove", "--force", wt], stderr=subprocess.DEVNULL)
       subprocess.check_call(["git", "-C", "/repo", "worktree", "add", "-q", "--detach", wt, "HEAD"])
@@ -53,7 +59,8 @@ def main():
         subprocess.run(["git", "-C", "/repo", "worktree", "remove", "--force", wt])
     # our checks against the change on /repo itself
     os.makedirs(dst, exist_ok=True)
-    shutil.copy(patch, os.path.join(dst, "patch.diff"))
+    if os.path.abspath(patch) != os.path.abspath(os.path.join(dst, "patch.diff")):
+        shutil.copy(patch, os.path.join(dst, "patch.diff"))
     for d in demos:
         s = os.path.join(src, d)
         if os.path.isdir(s):
@@ -61,7 +68,7 @@ def main():
         else:
             shutil.copy(s, os.path.join(dst, d + ".txt" if d.endswith(".go") else d))
     for f in ("notes.md", "demo_cmd.txt"):
-        if os.path.exists(os.path.join(src, f)):
+        if src != dst and os.path.exists(os.path.join(src, f)):
             shutil.copy(os.path.join(src, f), os.path.join(dst, f))
     meta["checks"] = {}
     if phase == "confirm":
